@@ -17,6 +17,14 @@ var (
 	half10_18  = new(big.Int).Quo(pow10_18, big.NewInt(2))
 )
 
+// intVal reads the current value of an Int (through the shared *big.Int once BigIntMut handed it out).
+func (it *Interp) intVal(x IntV) Value {
+	if x.box != nil && x.box.mut != nil {
+		return it.bigVal(x.box.mut)
+	}
+	return x.V
+}
+
 func (it *Interp) intArg(v Value) Value {
 	it.checkPoison(v)
 	switch x := v.(type) {
@@ -24,7 +32,7 @@ func (it *Interp) intArg(v Value) Value {
 		if x.Nil {
 			it.nilDeref()
 		}
-		return x.V
+		return it.intVal(x)
 	case *Ptr:
 		return it.intArg(it.load(x))
 	}
@@ -67,7 +75,7 @@ func (it *Interp) overflowCheck(v Value, limit *big.Int, limitBits int, msg stri
 }
 
 func (it *Interp) mkIntV(v Value) IntV {
-	return IntV{V: it.overflowCheck(v, maxInt256, 256, "Int overflow")}
+	return nIntV(it.overflowCheck(v, maxInt256, 256, "Int overflow"))
 }
 
 func (it *Interp) mkDecV(v Value) DecV {
@@ -147,20 +155,27 @@ func registerSdkMath(P *Program) {
 	const D = "(cosmossdk.io/math.LegacyDec)."
 	const DP = "(*cosmossdk.io/math.LegacyDec)."
 
-	P.reg(M+"NewInt", func(it *Interp, a []Value) Value { return IntV{V: a[0]} })
-	P.reg(M+"NewIntFromUint64", func(it *Interp, a []Value) Value { return IntV{V: a[0]} })
-	P.reg(M+"ZeroInt", func(it *Interp, a []Value) Value { return IntV{V: big.NewInt(0)} })
-	P.reg(M+"OneInt", func(it *Interp, a []Value) Value { return IntV{V: big.NewInt(1)} })
+	P.reg(M+"NewInt", func(it *Interp, a []Value) Value { return nIntV(a[0]) })
+	P.reg(M+"NewIntFromUint64", func(it *Interp, a []Value) Value { return nIntV(a[0]) })
+	P.reg(M+"ZeroInt", func(it *Interp, a []Value) Value { return nIntV(big.NewInt(0)) })
+	P.reg(M+"OneInt", func(it *Interp, a []Value) Value { return nIntV(big.NewInt(1)) })
 	fromBig := func(it *Interp, a []Value) Value {
 		p := a[0].(*Ptr)
 		if p == nil {
 			return IntV{Nil: true, V: big.NewInt(0)}
 		}
 		v := it.bigVal(a[0])
-		return IntV{V: it.overflowCheck(v, maxInt256, 256, "NewIntFromBigInt() out of bound")}
+		return nIntV(it.overflowCheck(v, maxInt256, 256, "NewIntFromBigInt() out of bound"))
 	}
 	P.reg(M+"NewIntFromBigInt", fromBig)
-	P.reg(M+"NewIntFromBigIntMut", fromBig)
+	P.reg(M+"NewIntFromBigIntMut", func(it *Interp, a []Value) Value {
+		p := a[0].(*Ptr)
+		if p == nil {
+			return IntV{Nil: true, V: big.NewInt(0)}
+		}
+		v := it.bigVal(a[0])
+		return IntV{V: it.overflowCheck(v, maxInt256, 256, "NewIntFromBigInt() out of bound"), box: &intBox{mut: p}}
+	})
 	P.reg(M+"NewIntFromString", func(it *Interp, a []Value) Value {
 		switch s := a[0].(type) {
 		case string:
@@ -168,9 +183,9 @@ func registerSdkMath(P *Program) {
 			if !ok || b.BitLen() > 256 {
 				return Tuple{IntV{Nil: true, V: big.NewInt(0)}, false}
 			}
-			return Tuple{IntV{V: b}, true}
+			return Tuple{nIntV(b), true}
 		case SymStr:
-			return Tuple{IntV{V: s.V}, true}
+			return Tuple{nIntV(s.V), true}
 		}
 		panic(unsupported("NewIntFromString"))
 	})
@@ -182,8 +197,8 @@ func registerSdkMath(P *Program) {
 		e := new(big.Int).Exp(big.NewInt(10), big.NewInt(int64(dec)), nil)
 		return it.mkIntV(mkMul(a[0], e))
 	})
-	P.reg(M+"MinInt", func(it *Interp, a []Value) Value { return IntV{V: mkMin(it.intArg(a[0]), it.intArg(a[1]))} })
-	P.reg(M+"MaxInt", func(it *Interp, a []Value) Value { return IntV{V: mkMax(it.intArg(a[0]), it.intArg(a[1]))} })
+	P.reg(M+"MinInt", func(it *Interp, a []Value) Value { return nIntV(mkMin(it.intArg(a[0]), it.intArg(a[1]))) })
+	P.reg(M+"MaxInt", func(it *Interp, a []Value) Value { return nIntV(mkMax(it.intArg(a[0]), it.intArg(a[1]))) })
 
 	P.reg(I+"IsNil", func(it *Interp, a []Value) Value { return a[0].(IntV).Nil })
 	P.reg(I+"BigInt", func(it *Interp, a []Value) Value {
@@ -191,9 +206,21 @@ func registerSdkMath(P *Program) {
 		if x.Nil {
 			return (*Ptr)(nil)
 		}
-		return it.newBig(x.V)
+		return it.newBig(it.intVal(x))
 	})
-	P.reg(I+"BigIntMut", P.intrinsics[I+"BigInt"])
+	P.reg(I+"BigIntMut", func(it *Interp, a []Value) Value {
+		x := a[0].(IntV)
+		if x.Nil {
+			return (*Ptr)(nil)
+		}
+		if x.box == nil {
+			panic(unsupported("BigIntMut on a math.Int without identity at " + it.where()))
+		}
+		if x.box.mut == nil {
+			x.box.mut = it.newBig(x.V)
+		}
+		return x.box.mut
+	})
 	P.reg(I+"ToLegacyDec", func(it *Interp, a []Value) Value { return it.mkDecV(mkMul(it.intArg(a[0]), pow10_18)) })
 	P.reg(I+"IsInt64", func(it *Interp, a []Value) Value {
 		v := it.intArg(a[0])
@@ -247,17 +274,17 @@ func registerSdkMath(P *Program) {
 		it.panicIf(mkCmp("=", y, big.NewInt(0)), "Division by zero")
 		return mkQuoT(x, y)
 	}
-	P.reg(I+"Quo", func(it *Interp, a []Value) Value { return IntV{V: quo(it, it.intArg(a[0]), it.intArg(a[1]))} })
-	P.reg(I+"QuoRaw", func(it *Interp, a []Value) Value { return IntV{V: quo(it, it.intArg(a[0]), a[1])} })
+	P.reg(I+"Quo", func(it *Interp, a []Value) Value { return nIntV(quo(it, it.intArg(a[0]), it.intArg(a[1]))) })
+	P.reg(I+"QuoRaw", func(it *Interp, a []Value) Value { return nIntV(quo(it, it.intArg(a[0]), a[1])) })
 	P.reg(I+"Mod", func(it *Interp, a []Value) Value {
 		x, y := it.intArg(a[0]), it.intArg(a[1])
 		it.panicIf(mkCmp("=", y, big.NewInt(0)), "division by zero")
-		return IntV{V: mkModE(x, y)}
+		return nIntV(mkModE(x, y))
 	})
 	P.reg(I+"ModRaw", func(it *Interp, a []Value) Value {
 		x, y := it.intArg(a[0]), a[1]
 		it.panicIf(mkCmp("=", y, big.NewInt(0)), "division by zero")
-		return IntV{V: mkModE(x, y)}
+		return nIntV(mkModE(x, y))
 	})
 	safe := func(f func(x, y Value) Value) Intrinsic {
 		return func(it *Interp, a []Value) Value {
@@ -269,14 +296,14 @@ func registerSdkMath(P *Program) {
 			} else if b, ok := r.(*big.Int); ok && new(big.Int).Abs(b).Cmp(maxInt256) >= 0 {
 				return Tuple{IntV{Nil: true, V: big.NewInt(0)}, &ErrV{Root: "math/ErrIntOverflow", Msg: "Integer overflow"}}
 			}
-			return Tuple{IntV{V: r}, (*ErrV)(nil)}
+			return Tuple{nIntV(r), (*ErrV)(nil)}
 		}
 	}
 	P.reg(I+"SafeAdd", safe(mkAdd))
 	P.reg(I+"SafeSub", safe(mkSub))
 	P.reg(I+"SafeMul", safe(mkMul))
-	P.reg(I+"Neg", func(it *Interp, a []Value) Value { return IntV{V: mkNeg(it.intArg(a[0]))} })
-	P.reg(I+"Abs", func(it *Interp, a []Value) Value { return IntV{V: mkAbs(it.intArg(a[0]))} })
+	P.reg(I+"Neg", func(it *Interp, a []Value) Value { return nIntV(mkNeg(it.intArg(a[0]))) })
+	P.reg(I+"Abs", func(it *Interp, a []Value) Value { return nIntV(mkAbs(it.intArg(a[0]))) })
 	P.reg(I+"String", func(it *Interp, a []Value) Value {
 		x := a[0].(IntV)
 		if x.Nil {
@@ -303,7 +330,7 @@ func registerSdkMath(P *Program) {
 				return &ErrV{Root: "math/unmarshal", Msg: "not an Int encoding"}
 			}
 			// a stored Int is within range by the representation invariant of the encoder (Marshal of a valid Int)
-			it.storeTo(p, IntV{V: bz.V})
+			it.storeTo(p, nIntV(bz.V))
 			return (*ErrV)(nil)
 		case *SliceV:
 			b := it.bytesOf(bz)
@@ -317,7 +344,7 @@ func registerSdkMath(P *Program) {
 			if v.BitLen() > 256 {
 				return &ErrV{Root: "math/unmarshal", Msg: "integer out of range"}
 			}
-			it.storeTo(p, IntV{V: v})
+			it.storeTo(p, nIntV(v))
 			return (*ErrV)(nil)
 		}
 		panic(unsupported("Int.Unmarshal of " + fmt.Sprintf("%T", a[1])))
